@@ -165,7 +165,7 @@ Deliver(s, rs, msg) ==      \* rs: sequence of recipients; a message with a topi
     IF rs = <<>> THEN s
     ELSE LET r == Head(rs)
              m1 == IF msg.topic \in {"", "PILL"} THEN msg
-                   ELSE LET q == SubFor(s, r, msg.topic) IN [msg EXCEPT !.pr = q.pr, !.ud = q.pat, !.os = q.os, !.sg = q.g]
+                   ELSE LET q == SubFor(s, r, msg.topic) IN [msg EXCEPT !.pr = q.pr, !.ud = q.pat, !.os = q.os, !.sg = IF q.os THEN q.g ELSE 0]
          IN
          IF Len(s.mod[r].pipe) < Cap
            THEN Deliver([s EXCEPT !.mod[r].pipe = Append(s.mod[r].pipe, m1)], Tail(rs), msg)
@@ -553,7 +553,8 @@ Subscribe(m, q, pr, os, u) ==
        \* it from the object it replaces and from those that messages still waiting in the mailbox came through)
        ELSE LET olds == {x \in S.mod[m].subs : x.pat = q}
                 same == {x \in olds : x.pr = pr /\ x.os = os}
-                used == {x.g : x \in olds} \cup {S.mod[m].pipe[i].sg : i \in {j \in 1..Len(S.mod[m].pipe) : S.mod[m].pipe[j].ud = q}}
+                \* (only messages that came through a one-shot subscription look at the identity; a number no such message carries is reused)
+                used == {S.mod[m].pipe[i].sg : i \in {j \in 1..Len(S.mod[m].pipe) : S.mod[m].pipe[j].ud = q /\ S.mod[m].pipe[j].os}}
                 g == IF same # {} THEN (CHOOSE x \in same : TRUE).g ELSE CHOOSE n \in 0..(Cap + 1) : n \notin used /\ \A k \in 0..(Cap + 1) : k \notin used => n <= k
             IN Rated(m, [S EXCEPT !.mod[m].subs = {x \in @ : x.pat # q} \cup {[pat |-> q, pr |-> pr, os |-> os, u |-> u, g |-> g]}, !.ret = 0])
 
